@@ -244,6 +244,21 @@ def run(ctx):
                 ctx.ob("R16.2", "Exec::setup_communicate.forces-stdout-only-if-both-unset", bool(n_out) and bool(n_err) and dominated_by_edges(scf, bb, n_out) and dominated_by_edges(scf, bb, n_err), scf.loc(bb),
                        "self.stdout(Pipe) inside setup_communicate must be dominated by config.stdout == None and config.stderr == None")
 
+    # stream_*() adapters pipe exactly the stream they are named after (and hand out that stream's parent end)
+    for ty_ in (EXEC, "builder::pipeline::Pipeline"):
+        for stream in ("stdin", "stdout", "stderr"):
+            f_ = prog.fn("%s::stream_%s" % (ty_, stream))
+            if f_ is None:
+                if not (ty_.endswith("Pipeline") and stream == "stderr"):
+                    ctx.missing("R16.7", "%s::stream_%s" % (ty_, stream))
+                continue
+            Tf_ = M.Terms(f_)
+            setters = [(bb, M.callee_str(t["f"]).split("::")[-1], Tf_.operand(t["args"][1])) for bb, t in f_.calls()
+                       if M.callee_str(t["f"]) in tuple("%s::%s" % (ty_, x) for x in ("stdin", "stdout", "stderr"))]
+            ok = len(setters) == 1 and setters[0][1] == stream and M.contains(setters[0][2], lambda u: u[0] == "agg" and u[1][:3] == ("adt", "popen::Redirection", "Pipe"))
+            ctx.ob("R16.7", "%s.stream_%s.pipes-%s" % (ty_.split("::")[-1], stream, stream), ok, f_.loc(0),
+                   "stream_%s must set exactly self.%s(Redirection::Pipe) (setter calls found: %s)" % (stream, stream, [(n, M.term_str(a)[:40]) for _, n, a in setters]))
+
     # ---- R16.3 Exec::shell -------------------------------------------------------------------------
     sh = prog.one("builder::exec::Exec::shell")
     Th = M.Terms(sh)
